@@ -213,7 +213,7 @@ def miss_field(r, lo, hi, v):
 
 def gen_expr(r, pf, mode=None):
     """mode: 'due' (every field names its value), 'near' (as due, one field replaced by a miss), 'rand'"""
-    mode = mode or r.choices(["due", "near", "rand"], [.4, .3, .3])[0]
+    mode = mode or r.choices(["due", "near", "rand"], [.3, .35, .35])[0]
     if mode == "rand":
         e = [rand_field(r, lo, hi) for lo, hi in RANGES]
         if r.random() < .4:   # thin expressions are due far more often
@@ -271,6 +271,9 @@ def gen_case(r):
     if r.random() < .35:
         now = now // MIN * MIN + r.choice(SECONDS)
     off = gen_off(r)
+    if off is not None and off["kind"] == "td" and r.random() < .3:
+        # the SHIFTED clock within 2 us of a minute boundary (sub-minute offsets decide the minute)
+        now = now // MIN * MIN - off["us"] % MIN + r.choice([-2, -1, 0, 1])
     loc, _ = shifted(now, off)
     e, mode = gen_expr(r, pyfields(loc))
     return finish_case(r, dict(now=now, off=off), e, mode)
@@ -424,7 +427,7 @@ def coq_off(off):
 
 def coq_case(c, sh, pf, d, judge):
     return C.cpair(coq_expr(c["expr"]), coq_off(c["off"]), C.cz(sh), C.cz(c["now"]),
-                   C.cpair(*[C.cz(v) for v in pf]), C.copt(d, C.cz), C.cb(judge))
+                   C.cpair(*[C.cz(v) for v in pf]), "(@None Z)" if d is None else "(Some %s)" % C.cz(d), C.cb(judge))
 
 
 def branch_counts(rep, c, pf, due):
@@ -441,7 +444,7 @@ def branch_counts(rep, c, pf, due):
 
 
 def explore(ctx, rep, cases, label, judge=True):
-    obs = C.run_driver(ctx, "cron_driver", cases)
+    obs = C.run_driver(ctx, "cron_driver", cases, nproc=min(C.NPROC, 1 + len(cases) // 250))
     lits, keep = [], []
     for c, o in zip(cases, obs):
         rep.case(c, nontrivial(c))
@@ -494,8 +497,9 @@ def explore(ctx, rep, cases, label, judge=True):
 def run(ctx):
     rep = C.Report(ctx, META)
     rep.add_obligations(C.proof_obligations("C13"))
-    for name, c in C.load_corpus("C13"):
-        explore(ctx, rep, [c], "corpus-" + re.sub(r"\W", "_", name))
+    corpus = [c for _, c in C.load_corpus("C13")]
+    if corpus:
+        explore(ctx, rep, corpus, "corpus")
     r = ctx.sub_rng("gen")
     cases = [gen_case(r) for _ in range(ctx.n(3000, 40000))]
     broken = explore(ctx, rep, cases, "main")
